@@ -427,6 +427,25 @@ def attribute(case, ctx, v):
                     break
             if taken is not None and not option_accepts(taken[0], taken[1], ctx):
                 return "wrapper-takes-alternative-that-deserializes-but-does-not-validate"
+        if g["t"] == "allof" and v == "over-rejects":
+            # AllOf makes EVERY alternative deserialize the document, although the JSON form of a value that all of
+            # them accept is written by one of them (formatted strings of different formats)
+            whole = []
+            for gk in g["fs"]:
+                try:
+                    w = lift(gk, x, ctx, case["ku"], case["ii"])
+                except NotImage:
+                    continue
+                if option_accepts(g, w, ctx):
+                    whole.append(w)
+            if whole:
+                for gi in g["fs"]:
+                    try:
+                        fobj = G6.single_field_class(gi, ctx).get_all_fields_by_name()["f"]
+                        with flags(case["ii"], case["compact"]):
+                            deserialize_single_field(fobj, copy.deepcopy(x), keep_undefined=case["ku"])
+                    except Exception:  # noqa
+                        return "allof-alternative-cannot-read-json-form-of-a-value-it-accepts"
     return None
 
 
@@ -541,6 +560,11 @@ def judge(rep, stream, ctx, cases, model_world=True):
                 frag[c["name"]] = all(G6.posfree(fd["field"]) for n in class_closure(ctx, [c["name"]])
                                       for fd in ctx.ast(n)["fields"])
             rep.stat(stream, "C06_error_class-hypotheses:" + ("hold" if frag[c["name"]] else "positional-outside-wrapper"))
+            # ... and inside those of C06_agree_scalar (scalar class; object document, string keys, no null member)?
+            sc = all(fd["field"]["t"] in ("num", "str", "bool", "enumlit", "any") for fd in ctx.all_fields(c["name"]))
+            d = case["doc"]
+            if sc and type(d) is dict and all(isinstance(k, str) and x is not None for k, x in d.items()):
+                rep.stat(stream, "C06_agree_scalar-hypotheses:hold")
         case["real"] = run_real(ctx.classes[c["name"]], case["doc"], case["ku"], case["ii"], case["compact"])
         case["spec"] = run_spec(c, case["doc"], ctx, case["ku"], case["ii"], case["compact"])
         v = verdict(case["real"], case["spec"])
